@@ -58,28 +58,35 @@ type Resolved struct {
 	St    State  // the state finally reached (node) or the unresolvable target (unres)
 	Node  interface{}
 	Hops  int
+	Via   string // text of the last $ref followed ("" when none)
 }
 
 // Deref follows "$ref replaces its holder" from st until a non-$ref node.
 func (w *OWorld) Deref(st State) Resolved {
 	seen := map[State]bool{}
 	hops := 0
+	via := ""
 	for {
 		if seen[st] {
-			return Resolved{Class: "bottom", St: st, Hops: hops}
+			return Resolved{Class: "bottom", St: st, Hops: hops, Via: via}
 		}
 		seen[st] = true
 		node, ok := w.Lookup(st)
 		if !ok {
-			return Resolved{Class: "unres", St: st, Hops: hops}
+			return Resolved{Class: "unres", St: st, Hops: hops, Via: via}
+		}
+		if hops > 0 && !isObj(node) {
+			// a $ref whose target is a string, number, boolean or array designates no element
+			return Resolved{Class: "unres", St: st, Hops: hops, Via: via}
 		}
 		ref, isRef := RefOf(node)
 		if !isRef {
-			return Resolved{Class: "node", St: st, Node: node, Hops: hops}
+			return Resolved{Class: "node", St: st, Node: node, Hops: hops, Via: via}
 		}
+		via = ref
 		t, err := RefTarget(st.Doc, ref)
 		if err != nil {
-			return Resolved{Class: "unres", St: State{Doc: st.Doc, Ptr: "?" + ref}, Hops: hops}
+			return Resolved{Class: "unres", St: State{Doc: st.Doc, Ptr: "?" + ref}, Hops: hops, Via: via}
 		}
 		st = t
 		hops++
@@ -250,14 +257,32 @@ type pairKey struct {
 // Bisimilar decides whether state a of world wa and state b of world wb denote the same (possibly infinite) tree.
 // The first mismatch found is returned.
 func Bisimilar(wa *OWorld, a State, wb *OWorld, b State, kind string) *Mismatch {
+	return BisimilarOpts(wa, a, wb, b, kind, BisimOpts{})
+}
+
+// BisimOpts tunes the comparison of unresolvable references (continue-on-error expansion).
+type BisimOpts struct {
+	// UnresByText: two unresolvable $refs are the same when their text is (left verbatim), not their target.
+	UnresByText bool
+	// WildcardNonSchemaUnres: where the first side is an unresolvable parameter/response/path-item $ref, anything is accepted.
+	WildcardNonSchemaUnres bool
+}
+
+func BisimilarOpts(wa *OWorld, a State, wb *OWorld, b State, kind string, o BisimOpts) *Mismatch {
 	assumed := map[pairKey]bool{}
+	bo = o
 	return bisim(wa, a, wb, b, kind, "", assumed, 0)
 }
+
+var bo BisimOpts // single-threaded use
 
 func bisim(wa *OWorld, a State, wb *OWorld, b State, kind, path string, assumed map[pairKey]bool, depth int) *Mismatch {
 	ra, rb := wa.Deref(a), wb.Deref(b)
 	mm := func(reason string) *Mismatch {
 		return &Mismatch{Path: path, Reason: reason, A: ra.St.String(), B: rb.St.String()}
+	}
+	if ra.Class == "unres" && kind != "schema" && bo.WildcardNonSchemaUnres {
+		return nil
 	}
 	if ra.Class != rb.Class {
 		return mm(fmt.Sprintf("one side is %s, the other %s", ra.Class, rb.Class))
@@ -266,6 +291,12 @@ func bisim(wa *OWorld, a State, wb *OWorld, b State, kind, path string, assumed 
 	case "bottom":
 		return nil
 	case "unres":
+		if bo.UnresByText {
+			if ra.Via != rb.Via {
+				return mm(fmt.Sprintf("unresolvable $ref not left verbatim: %q vs %q", ra.Via, rb.Via))
+			}
+			return nil
+		}
 		if ra.St != rb.St {
 			return mm("different unresolvable targets")
 		}
